@@ -13,6 +13,7 @@
 #include <iostream>
 #include <memory>
 #include <sstream>
+#include <functional>
 
 using namespace SimTK;
 
@@ -33,7 +34,7 @@ struct Probe : public Force::Custom::Implementation {
 
 enum Kind { K_TPSpring, K_TPDamper, K_TPConst, K_ConstForce, K_ConstTorque, K_GlobalDamper, K_UniformGravity,
             K_Bushing, K_MobSpring, K_MobDamper, K_MobConst, K_MobStop, K_MobDiscrete, K_Discrete, K_Gravity,
-            K_ProbePos, K_ProbeVel };
+            K_ProbePos, K_ProbeVel, K_Thermostat, K_CableSpring, K_ExpSpring };
 
 const char* className(Kind k) {
     switch (k) {
@@ -52,11 +53,18 @@ const char* className(Kind k) {
     case K_MobDiscrete: return "Force::MobilityDiscreteForceImpl";
     case K_Discrete: return "Force::DiscreteForcesImpl";
     case K_Gravity: return "Force::GravityImpl";
+    case K_Thermostat: return "Force::ThermostatImpl";
+    case K_CableSpring: return "CableSpring::Impl";
+    case K_ExpSpring: return "ExponentialSpringForceImpl";
     default: return "Force::CustomImpl";
     }
 }
 const char* shortName(Kind k) {
-    static std::string s; s = className(k); s = s.substr(7, s.size() - 11); return s.c_str();
+    static std::string s; s = className(k);
+    if (s.compare(0, 7, "Force::") == 0) s = s.substr(7);
+    if (s.size() > 6 && s.compare(s.size() - 6, 6, "::Impl") == 0) s = s.substr(0, s.size() - 6);
+    else if (s.size() > 4 && s.compare(s.size() - 4, 4, "Impl") == 0) s = s.substr(0, s.size() - 4);
+    return s.c_str();
 }
 
 struct FRec {
@@ -64,11 +72,13 @@ struct FRec {
     Force::MobilityLinearSpring  mls;  Force::MobilityLinearDamper mld; Force::MobilityConstantForce mcf;
     Force::MobilityLinearStop    stop; Force::MobilityDiscreteForce mdf; Force::DiscreteForces df;
     Force::Gravity grav; Probe* probe = nullptr;
+    Force::LinearBushing bush; Force::Thermostat thermo; CableSpring cable; ExponentialSpringForce* expo = nullptr;
 };
 
 struct Sys {
     MultibodySystem sys; SimbodyMatterSubsystem matter; GeneralForceSubsystem forces;
     std::vector<MobilizedBody> bodies; std::vector<FRec> fr;
+    std::unique_ptr<CableTrackerSubsystem> cables;
     Sys() : matter(sys), forces(sys) {}
 };
 
@@ -90,9 +100,20 @@ void addForce(Sys& S, vh::Rng& r, Kind k) {
     case K_UniformGravity: { Force::UniformGravity x(S.forces, S.matter, rvec(r, 1, 9), r.range(-1, 1)); f.ix = x.getForceIndex(); break; }
     case K_Bushing: {
         Vec6 kk, cc; for (int i = 0; i < 6; ++i) { kk[i] = r.range(1, 9); cc[i] = r.range(.1, 1); }
-        Force::LinearBushing x(S.forces, A, Transform(Rotation(r.range(-1, 1), UnitVec3(rvec(r, .3, 1))), rvec(r, .1, .5)),
+        f.bush = Force::LinearBushing(S.forces, A, Transform(Rotation(r.range(-1, 1), UnitVec3(rvec(r, .3, 1))), rvec(r, .1, .5)),
                                B, Transform(rvec(r, .1, .5)), kk, cc);
-        f.ix = x.getForceIndex(); break; }
+        f.ix = f.bush.getForceIndex(); break; }
+    case K_Thermostat: { f.thermo = Force::Thermostat(S.forces, S.matter, 1.0, r.range(.5, 2), r.range(.3, 1), 0); f.ix = f.thermo.getForceIndex(); break; }
+    case K_CableSpring: {
+        if (!S.cables) S.cables.reset(new CableTrackerSubsystem(S.sys));
+        CablePath path(*S.cables, A, rvec(r, .2, .6), S.matter.Ground(), rvec(r, 1.5, 2.5));
+        f.cable = CableSpring(S.forces, path, r.range(5, 20), r.range(.2, .8), r.range(.05, .3));
+        f.ix = f.cable.getForceIndex(); break; }
+    case K_ExpSpring: {
+        ExponentialSpringParameters ep;            // wide, soft exponential so that the element acts at any height
+        ep.setShapeParameters(0.1, 5.0, 1.0); ep.setInitialMuStatic(0.3); ep.setInitialMuKinetic(0.2);
+        f.expo = new ExponentialSpringForce(S.forces, Transform(), A, rvec(r, .1, .4), ep);
+        f.ix = f.expo->getForceIndex(); break; }
     case K_MobSpring: { f.mls = Force::MobilityLinearSpring(S.forces, A, MobilizerQIndex(0), r.range(1, 9), r.range(-1, 1)); f.ix = f.mls.getForceIndex(); break; }
     case K_MobDamper: { f.mld = Force::MobilityLinearDamper(S.forces, A, MobilizerUIndex(0), r.range(.2, 2)); f.ix = f.mld.getForceIndex(); break; }
     case K_MobConst: { f.mcf = Force::MobilityConstantForce(S.forces, A, MobilizerUIndex(0), r.signedMag(1, 5)); f.ix = f.mcf.getForceIndex(); break; }
@@ -128,25 +149,29 @@ std::string obs(const Sys& S, const State& s) {
     return os.str();
 }
 
-struct Results { Vector udot, mob; Vector_<SpatialVec> body; Real pe, ke; };
+struct Results { Vector udot, mob, zdot; Vector_<SpatialVec> body; Real pe, ke; };
 
 Results collect(const Sys& S, State& s) {
     S.sys.realize(s, Stage::Acceleration);
-    Results r; r.udot = s.getUDot(); r.mob = S.sys.getMobilityForces(s, Stage::Dynamics);
+    Results r; r.udot = s.getUDot(); r.zdot = s.getZDot(); r.mob = S.sys.getMobilityForces(s, Stage::Dynamics);
     r.body = S.sys.getRigidBodyForces(s, Stage::Dynamics);
     r.pe = S.sys.calcPotentialEnergy(s); r.ke = S.sys.calcKineticEnergy(s);
     return r;
 }
 
-double relDiff(const Results& a, const Results& b) {
+// zOnly = false: udot, forces, PE, KE;  zOnly = true: the derivatives of the auxiliary states
+double relDiff(const Results& a, const Results& b, bool zOnly = false, bool all = false) {
     double scale = 1, d = 0;
     auto acc = [&](double x, double y) {
         if (std::isnan(x) || std::isnan(y)) { if (!(std::isnan(x) && std::isnan(y))) d = INFINITY; return; }
         scale = std::max(scale, std::max(std::fabs(x), std::fabs(y))); d = std::max(d, std::fabs(x - y)); };
-    for (int i = 0; i < a.udot.size(); ++i) acc(a.udot[i], b.udot[i]);
-    for (int i = 0; i < a.mob.size(); ++i) acc(a.mob[i], b.mob[i]);
-    for (int i = 0; i < a.body.size(); ++i) for (int j = 0; j < 2; ++j) for (int k = 0; k < 3; ++k) acc(a.body[i][j][k], b.body[i][j][k]);
-    acc(a.pe, b.pe); acc(a.ke, b.ke);
+    if (zOnly || all) for (int i = 0; i < a.zdot.size(); ++i) acc(a.zdot[i], b.zdot[i]);
+    if (!zOnly || all) {
+        for (int i = 0; i < a.udot.size(); ++i) acc(a.udot[i], b.udot[i]);
+        for (int i = 0; i < a.mob.size(); ++i) acc(a.mob[i], b.mob[i]);
+        for (int i = 0; i < a.body.size(); ++i) for (int j = 0; j < 2; ++j) for (int k = 0; k < 3; ++k) acc(a.body[i][j][k], b.body[i][j][k]);
+        acc(a.pe, b.pe); acc(a.ke, b.ke);
+    }
     return d / scale;
 }
 
@@ -171,6 +196,13 @@ State freshLike(const Sys& S, const State& s) {
             for (MobilizedBodyIndex b(1); b < S.matter.getNumBodies(); ++b)
                 r.grav.setBodyIsExcluded(f, b, r.grav.getBodyIsExcluded(s, b));
             break;
+        case K_Bushing: r.bush.setStiffness(f, r.bush.getStiffness(s)); r.bush.setDamping(f, r.bush.getDamping(s));
+                        r.bush.setFrameOnBody1(f, r.bush.getFrameOnBody1(s)); r.bush.setFrameOnBody2(f, r.bush.getFrameOnBody2(s)); break;
+        case K_Thermostat: r.thermo.setBathTemperature(f, r.thermo.getBathTemperature(s));
+                           r.thermo.setRelaxationTime(f, r.thermo.getRelaxationTime(s)); break;
+        case K_CableSpring: r.cable.setStiffness(f, r.cable.getStiffness(s)); r.cable.setSlackLength(f, r.cable.getSlackLength(s));
+                            r.cable.setDissipationCoef(f, r.cable.getDissipationCoef(s)); break;
+        case K_ExpSpring: r.expo->setMuStatic(f, r.expo->getMuStatic(s)); r.expo->setMuKinetic(f, r.expo->getMuKinetic(s)); break;
         default: break;
         }
     }
@@ -188,14 +220,24 @@ void emitModel(const Sys& S, const State& s) {
     std::printf("O obs %s\n", obs(S, s).c_str());
 }
 
-void doCheck(const Sys& S, State& s, const std::string& key) {
+Results doCheck(const Sys& S, State& s, const std::string& key) {
     std::puts("I check");
     Results a = collect(S, s);
     State f = freshLike(S, s);
     Results b = collect(S, f);
-    const double d = relDiff(a, b);
+    const double d = relDiff(a, b), dz = relDiff(a, b, true);
     std::printf("O obs %s stale=%d\n", obs(S, s).c_str(), d > 1e-12 ? 1 : 0);
     vh::P("sameAsFreshState", key, d, 1e-12);
+    if (a.zdot.size()) {
+        // derivatives of auxiliary states; in random cases a difference is attributed to a disabled z-owning element if there is one
+        std::string zkey = key.substr(0, key.size() - 8) + ".zdot.history";
+        if (key.find(".param_after_realize.") == std::string::npos)
+            for (const FRec& f : S.fr)
+                if ((f.kind == K_Bushing || f.kind == K_CableSpring || f.kind == K_Thermostat) && S.forces.isForceDisabled(s, f.ix))
+                    zkey = "zdot_of_disabled_element.history";
+        vh::P("sameZDotAsFreshState", zkey, dz, 1e-12);
+    }
+    return a;
 }
 
 void buildBodies(Sys& S, vh::Rng& r, int nb) {
@@ -226,6 +268,109 @@ void caseF4(vh::Rng& r) {
     S.fr[0].mls.setQZero(s, S.fr[0].mls.getQZero(s) + 0.5);
     std::printf("I setParam 0 0 %ld\nO obs %s\n", ++tok, obs(S, s).c_str());
     doCheck(S, s, "MobilityLinearSpring.param_after_realize.history");
+}
+
+
+// ---------------------------------------------------------------------------------------------------------
+// Directed histories: for every force type and every public State-level setter
+//     realize(Acceleration) -> change exactly that parameter -> realize(Acceleration)
+// compared with a fresh State, each under its own key  <Force>.<setter>.param_after_realize.history
+typedef std::function<std::string(Sys&, FRec&, State&, vh::Rng&)> Change;     // returns the model operation
+
+void directedCase(vh::Rng& r, Kind k, const char* setter, Change change,
+                  std::function<void(Sys&, FRec&)> prepare = nullptr,
+                  std::function<void(Sys&, FRec&, State&)> before = nullptr) {
+    Sys S; buildBodies(S, r, 2);
+    addForce(S, r, k);
+    if (prepare) prepare(S, S.fr[0]);
+    S.sys.realizeTopology();
+    State s = S.sys.getDefaultState();
+    emitModel(S, s);
+    vh::D(std::string("directed=") + shortName(k) + "." + setter);
+    long tok = 100;
+    for (int i = 0; i < s.getNQ(); ++i) s.updQ()[i] = r.signedMag(.7, 1.1);
+    std::printf("I setQ %ld\nO obs %s\n", ++tok, obs(S, s).c_str());
+    for (int i = 0; i < s.getNU(); ++i) s.updU()[i] = r.signedMag(.3, 1);
+    std::printf("I setU %ld\nO obs %s\n", ++tok, obs(S, s).c_str());
+    if (before) before(S, S.fr[0], s);
+    const Results res0 = collect(S, s);
+    std::printf("I realize 8\nO obs %s\n", obs(S, s).c_str());
+    const std::string mop = change(S, S.fr[0], s, r);
+    std::printf("I %s\nO obs %s\n", mop.c_str(), obs(S, s).c_str());
+    const Results after = doCheck(S, s, std::string(shortName(k)) + "." + setter + ".param_after_realize.history");
+    // the change must matter (otherwise a stale cache could not be seen): recorded in the path distribution
+    vh::D(relDiff(res0, after, false, true) > 1e-9 ? "directed_effect=visible" : std::string("directed_effect=NONE:") + shortName(k) + "." + setter);
+}
+
+std::string P0(int j, long tok) { return "setParam 0 " + std::to_string(j) + " " + std::to_string(tok); }
+std::string G0(long tok, bool zero) { return "gravSet 0 0 " + std::to_string(tok) + (zero ? " 1" : " 0"); }
+
+void directedCases(vh::Rng& r) {
+    // mobility elements
+    directedCase(r, K_MobSpring, "setStiffness", [](Sys&, FRec& f, State& s, vh::Rng&) { f.mls.setStiffness(s, 10 * f.mls.getStiffness(s)); return P0(0, 201); });
+    directedCase(r, K_MobSpring, "setQZero", [](Sys&, FRec& f, State& s, vh::Rng&) { f.mls.setQZero(s, f.mls.getQZero(s) + 0.5); return P0(0, 201); });
+    directedCase(r, K_MobDamper, "setDamping", [](Sys&, FRec& f, State& s, vh::Rng&) { f.mld.setDamping(s, 5 * f.mld.getDamping(s)); return P0(0, 201); });
+    directedCase(r, K_MobConst, "setForce", [](Sys&, FRec& f, State& s, vh::Rng&) { f.mcf.setForce(s, f.mcf.getForce(s) + 3); return P0(0, 201); });
+    directedCase(r, K_MobStop, "setMaterialProperties", [](Sys&, FRec& f, State& s, vh::Rng&) { f.stop.setMaterialProperties(s, 3 * f.stop.getStiffness(s), 2 * f.stop.getDissipation(s)); return P0(0, 201); });
+    directedCase(r, K_MobStop, "setBounds", [](Sys&, FRec& f, State& s, vh::Rng&) { f.stop.setBounds(s, -.05, .05); return P0(0, 201); });
+    directedCase(r, K_MobDiscrete, "setMobilityForce", [](Sys&, FRec& f, State& s, vh::Rng&) { f.mdf.setMobilityForce(s, f.mdf.getMobilityForce(s) + 2); return P0(0, 201); });
+    // discrete forces
+    directedCase(r, K_Discrete, "setOneMobilityForce", [](Sys& S, FRec& f, State& s, vh::Rng&) { f.df.setOneMobilityForce(s, S.bodies[0], MobilizerUIndex(0), 2.5); return P0(0, 201); });
+    directedCase(r, K_Discrete, "setOneBodyForce", [](Sys& S, FRec& f, State& s, vh::Rng&) { f.df.setOneBodyForce(s, S.bodies[1], SpatialVec(Vec3(1, 2, 3), Vec3(-2, 1, .5))); return P0(1, 201); });
+    directedCase(r, K_Discrete, "setAllMobilityForces", [](Sys& S, FRec& f, State& s, vh::Rng&) { f.df.setAllMobilityForces(s, Vector(S.matter.getNumMobilities(), 1.5)); return P0(0, 201); });
+    directedCase(r, K_Discrete, "setAllBodyForces", [](Sys& S, FRec& f, State& s, vh::Rng&) { f.df.setAllBodyForces(s, Vector_<SpatialVec>(S.matter.getNumBodies(), SpatialVec(Vec3(.5, 1, -1), Vec3(1, -1, 2)))); return P0(1, 201); });
+    directedCase(r, K_Discrete, "addForceToBodyPoint", [](Sys& S, FRec& f, State& s, vh::Rng&) { f.df.addForceToBodyPoint(s, S.bodies[0], Vec3(.3, .2, .1), Vec3(1, -2, 1.5)); return P0(1, 201); },
+                 nullptr, [](Sys& S, FRec& f, State& s) { f.df.setOneBodyForce(s, S.bodies[0], SpatialVec(Vec3(0), Vec3(0))); std::printf("I setParam 0 1 150\nO obs %s\n", obs(S, s).c_str()); });
+    directedCase(r, K_Discrete, "clearAllForces", [](Sys&, FRec& f, State& s, vh::Rng&) { f.df.clearAllMobilityForces(s); return P0(0, 201); },
+                 nullptr, [](Sys& S, FRec& f, State& s) { f.df.setOneMobilityForce(s, S.bodies[0], MobilizerUIndex(0), 4.0); std::printf("I setParam 0 0 150\nO obs %s\n", obs(S, s).c_str()); });
+    directedCase(r, K_Discrete, "clearAllBodyForces", [](Sys&, FRec& f, State& s, vh::Rng&) { f.df.clearAllBodyForces(s); return P0(1, 201); },
+                 nullptr, [](Sys& S, FRec& f, State& s) { f.df.setOneBodyForce(s, S.bodies[0], SpatialVec(Vec3(1, 1, 1), Vec3(2, 0, 1))); std::printf("I setParam 0 1 150\nO obs %s\n", obs(S, s).c_str()); });
+    // linear bushing (own lazy cache entries at Position / Velocity; parameters in an Instance-stage variable)
+    directedCase(r, K_Bushing, "setStiffness", [](Sys&, FRec& f, State& s, vh::Rng&) { f.bush.setStiffness(s, 3 * f.bush.getStiffness(s)); return P0(0, 201); });
+    directedCase(r, K_Bushing, "setDamping", [](Sys&, FRec& f, State& s, vh::Rng&) { f.bush.setDamping(s, 4 * f.bush.getDamping(s)); return P0(0, 201); });
+    directedCase(r, K_Bushing, "setFrameOnBody1", [](Sys&, FRec& f, State& s, vh::Rng&) { f.bush.setFrameOnBody1(s, Transform(Rotation(.4, ZAxis), Vec3(.3, -.2, .1))); return P0(0, 201); });
+    directedCase(r, K_Bushing, "setFrameOnBody2", [](Sys&, FRec& f, State& s, vh::Rng&) { f.bush.setFrameOnBody2(s, Transform(Rotation(-.3, XAxis), Vec3(-.1, .25, .2))); return P0(0, 201); });
+    // thermostat (Instance-stage parameters)
+    auto heat = [](Sys& S, FRec&, State& s) { for (int i = 0; i < s.getNZ(); ++i) s.updZ()[i] = .4 + .1 * i; std::printf("I setZ 151\nO obs %s\n", obs(S, s).c_str()); };
+    directedCase(r, K_Thermostat, "setBathTemperature", [](Sys&, FRec& f, State& s, vh::Rng&) { f.thermo.setBathTemperature(s, 3 * f.thermo.getBathTemperature(s)); return P0(1, 201); }, nullptr, heat);
+    directedCase(r, K_Thermostat, "setRelaxationTime", [](Sys&, FRec& f, State& s, vh::Rng&) { f.thermo.setRelaxationTime(s, 2 * f.thermo.getRelaxationTime(s)); return P0(2, 201); }, nullptr, heat);
+    // cable spring
+    directedCase(r, K_CableSpring, "setStiffness", [](Sys&, FRec& f, State& s, vh::Rng&) { f.cable.setStiffness(s, 2 * f.cable.getStiffness(s)); return P0(0, 201); });
+    directedCase(r, K_CableSpring, "setSlackLength", [](Sys&, FRec& f, State& s, vh::Rng&) { f.cable.setSlackLength(s, .5 * f.cable.getSlackLength(s)); return P0(0, 201); });
+    directedCase(r, K_CableSpring, "setDissipationCoef", [](Sys&, FRec& f, State& s, vh::Rng&) { f.cable.setDissipationCoef(s, 3 * f.cable.getDissipationCoef(s)); return P0(0, 201); });
+    // exponential spring (friction coefficients are Dynamics-stage variables)
+    directedCase(r, K_ExpSpring, "setMuStatic", [](Sys&, FRec& f, State& s, vh::Rng&) { f.expo->setMuStatic(s, f.expo->getMuStatic(s) + .3); return P0(0, 201); });
+    directedCase(r, K_ExpSpring, "setMuKinetic", [](Sys&, FRec& f, State& s, vh::Rng&) { f.expo->setMuKinetic(s, .5 * f.expo->getMuKinetic(s)); return P0(1, 201); });
+    // Force::Gravity (defaults: magnitude 9.8 along -Y unless stated)
+    auto gravAxis = [](Sys& S, FRec& f) { f.grav.setDefaultDownDirection(UnitVec3(-YAxis)); f.grav.setDefaultMagnitude(9.8); (void)S; };
+    auto gravZero = [](Sys&, FRec& f) { f.grav.setDefaultDownDirection(UnitVec3(-YAxis)); f.grav.setDefaultMagnitude(0); };
+    directedCase(r, K_Gravity, "setMagnitude", [](Sys&, FRec& f, State& s, vh::Rng&) { f.grav.setMagnitude(s, 3.7); return G0(201, false); }, gravAxis);
+    directedCase(r, K_Gravity, "setMagnitude_toZero", [](Sys&, FRec& f, State& s, vh::Rng&) { f.grav.setMagnitude(s, 0); return G0(201, true); }, gravAxis);
+    directedCase(r, K_Gravity, "setMagnitude_fromZero", [](Sys&, FRec& f, State& s, vh::Rng&) { f.grav.setMagnitude(s, 6.5); return G0(201, false); }, gravZero);
+    directedCase(r, K_Gravity, "setDownDirection", [](Sys&, FRec& f, State& s, vh::Rng&) { f.grav.setDownDirection(s, UnitVec3(XAxis)); return G0(201, false); }, gravAxis);
+    directedCase(r, K_Gravity, "setZeroHeight", [](Sys&, FRec& f, State& s, vh::Rng&) { f.grav.setZeroHeight(s, f.grav.getZeroHeight(s) + 1.5); return G0(201, false); }, gravAxis);
+    directedCase(r, K_Gravity, "setGravityVector_directionOnly", [](Sys&, FRec& f, State& s, vh::Rng&) { f.grav.setGravityVector(s, Vec3(9.8, 0, 0)); return G0(201, false); }, gravAxis);
+    directedCase(r, K_Gravity, "setGravityVector_oppositeDirection", [](Sys&, FRec& f, State& s, vh::Rng&) { f.grav.setGravityVector(s, Vec3(0, 9.8, 0)); return G0(201, false); }, gravAxis);
+    directedCase(r, K_Gravity, "setGravityVector_magnitudeOnly", [](Sys&, FRec& f, State& s, vh::Rng&) { f.grav.setGravityVector(s, Vec3(0, -4.9, 0)); return G0(201, false); }, gravAxis);
+    directedCase(r, K_Gravity, "setGravityVector_both", [](Sys&, FRec& f, State& s, vh::Rng&) { f.grav.setGravityVector(s, Vec3(1, -2, 3)); return G0(201, false); }, gravAxis);
+    directedCase(r, K_Gravity, "setGravityVector_toZero", [](Sys&, FRec& f, State& s, vh::Rng&) { f.grav.setGravityVector(s, Vec3(0)); return G0(201, true); }, gravAxis);
+    directedCase(r, K_Gravity, "setGravityVector_fromZero", [](Sys&, FRec& f, State& s, vh::Rng&) { f.grav.setGravityVector(s, Vec3(0, 0, -5)); return G0(201, false); }, gravZero);
+    directedCase(r, K_Gravity, "setBodyIsExcluded_true", [](Sys&, FRec& f, State& s, vh::Rng&) { f.grav.setBodyIsExcluded(s, MobilizedBodyIndex(1), true); return G0(201, false); }, gravAxis);
+    directedCase(r, K_Gravity, "setBodyIsExcluded_false", [](Sys&, FRec& f, State& s, vh::Rng&) { f.grav.setBodyIsExcluded(s, MobilizedBodyIndex(2), false); return G0(201, false); },
+                 [](Sys&, FRec& f) { f.grav.setDefaultDownDirection(UnitVec3(-YAxis)); f.grav.setDefaultMagnitude(9.8); f.grav.setDefaultBodyIsExcluded(MobilizedBodyIndex(2), true); });
+    // enable / disable of every element type (also the ones whose parameters are construction-time constants)
+    static const Kind all[] = { K_TPSpring, K_TPDamper, K_TPConst, K_ConstForce, K_ConstTorque, K_GlobalDamper, K_UniformGravity,
+        K_Bushing, K_MobSpring, K_MobDamper, K_MobConst, K_MobStop, K_MobDiscrete, K_Discrete, K_Gravity, K_ProbePos, K_ProbeVel,
+        K_Thermostat, K_CableSpring, K_ExpSpring };
+    auto activate = [](Sys& S, FRec& f, State& s) {        // make elements that are inert by default act
+        if (f.kind == K_Discrete) { f.df.setOneMobilityForce(s, S.bodies[0], MobilizerUIndex(0), 3.0); std::printf("I setParam 0 0 150\nO obs %s\n", obs(S, s).c_str()); }
+        if (f.kind == K_Thermostat) { for (int i = 0; i < s.getNZ(); ++i) s.updZ()[i] = .4 + .1 * i; std::printf("I setZ 151\nO obs %s\n", obs(S, s).c_str()); }
+    };
+    for (Kind k : all) {
+        directedCase(r, k, "disable", [](Sys& S, FRec& f, State& s, vh::Rng&) { S.forces.getForce(f.ix).disable(s); return std::string("setEnabled 0 0"); }, nullptr, activate);
+        directedCase(r, k, "enable_afterDisabledByDefault", [](Sys& S, FRec& f, State& s, vh::Rng&) { S.forces.getForce(f.ix).enable(s); return std::string("setEnabled 0 1"); },
+                     [](Sys& S, FRec& f) { S.forces.updForce(f.ix).setDisabledByDefault(true); }, activate);
+    }
 }
 
 void randomCase(vh::Rng& r) {
@@ -273,7 +418,7 @@ void randomCase(vh::Rng& r) {
                 else { f.df.setOneBodyForce(s, S.bodies[f.mob], SpatialVec(rvec(r, 1, 3), rvec(r, 1, 3))); out("setParam %ld 1 %ld", fi, ++tok); }
                 break;
             case K_Gravity: {
-                const int w = r.below(6);
+                const int w = r.below(7);
                 const Real g0 = f.grav.getMagnitude(s);
                 bool changed = true;
                 if (w == 0) { const Real g = r.below(3) == 0 ? 0.0 : r.range(1, 10); changed = g != g0; f.grav.setMagnitude(s, g); }
@@ -284,6 +429,10 @@ void randomCase(vh::Rng& r) {
                     changed = (g0 != ng) || (f.grav.getDownDirection(s) != nd); f.grav.setGravityVector(s, gv); }
                 else if (w == 4) { const MobilizedBodyIndex b(1 + r.below(S.matter.getNumBodies() - 1)); const bool e = r.coin();
                     changed = e != f.grav.getBodyIsExcluded(s, b); f.grav.setBodyIsExcluded(s, b, e); }
+                else if (w == 5) {      // direction-only change with exactly the same magnitude (axis aligned)
+                    const int ax = r.below(3); Vec3 gv(0); gv[ax] = r.coin() ? g0 : -g0;
+                    const UnitVec3 nd = g0 > 0 ? UnitVec3(gv / g0, true) : f.grav.getDownDirection(s);
+                    changed = f.grav.getDownDirection(s) != nd; f.grav.setGravityVector(s, gv); }
                 else { changed = false; f.grav.setMagnitude(s, g0); }       // same value: must be a no-op
                 if (changed) out("gravSet %ld 0 %ld %ld", fi, ++tok, f.grav.getMagnitude(s) == 0 ? 1 : 0);
                 break; }
@@ -310,6 +459,7 @@ int main(int argc, char** argv) {
     vh::Rng r(args.seed * 7919 + 13);
     try {
         caseF4(r);
+        directedCases(r);
         for (long i = 0; i < args.n; ++i) randomCase(r);
     } catch (const std::exception& e) {
         std::fprintf(stderr, "C16 harness: exception %s\n", e.what());
